@@ -197,3 +197,39 @@ def callers_of(crate, *suffixes):
             if any(paths._sfx(n, s) for s in suffixes):
                 out.setdefault(f.name, []).append((bb, t))
     return out
+
+
+def loop_invariant_store(crate, fn, head, **evkw):
+    """Values, at the first arrival at loop head `head`, of the locals of `fn` that are assigned nowhere at or after the head
+    (i.e. computations hoisted out of the loop).  Returned as an `init_store` for an evaluation that starts at the head, so that
+    `let x = f(arg); loop { use(x) }` is seen the same way as `loop { use(f(arg)) }`.  Only values that are identical on every
+    path reaching the head and that mention nothing but parameters / constants / calls on them are kept."""
+    import paths as _paths
+    reach = fn.reachable(head)
+    assigned = set()
+    for b in reach:
+        blk = fn.blocks[b]
+        for s in blk["s"]:
+            if "a" in s:
+                assigned.add(s["a"][0]["l"])
+                rv = s["a"][1]
+                if "ref" in rv and rv.get("mut"):
+                    assigned.add(rv["ref"]["l"])
+                if "ptr" in rv:
+                    assigned.add(rv["ptr"]["l"])
+        t = blk["t"]
+        if "call" in t and t.get("dest") is not None:
+            assigned.add(t["dest"]["l"])
+    ev = _paths.Evaluator(crate, stop_blocks=[head], **evkw)
+    rows = [x for x in ev.run(fn) if x.outcome[0] == "stop" and x.outcome[1] == head]
+    if not rows:
+        return {}
+    out = {}
+    for k, v in rows[0].store.items():
+        if not (isinstance(k, tuple) and k and k[0] == "local" and k[1] == 0):
+            continue
+        if k[2] in assigned or k[2] <= fn.argc:
+            continue
+        if all(x.store.get(k) == v for x in rows) and not _paths.term_contains(v, lambda y: y and y[0] in ("load", "unknown")):
+            out[k] = v
+    return out
